@@ -127,7 +127,7 @@ MergeNull == {EmptyObj, O1("k1", N1), O1("k0", O2("k0", Null, "k1", N1)), O2("k0
 (* every kind of JSON value (number, zero, string, empty string, true, false, null, empty and non-empty containers) as root, *)
 (* array member and object value: no differ / patcher / reader branch is a kind nobody exercised                             *)
 KindAtoms == {N1, Num(0), S0, Str(""), Bool(TRUE), Bool(FALSE), Null, EmptyArr, EmptyObj}
-Kinds == KindAtoms \cup {Arr(t) : t \in TuplesUpTo(KindAtoms, 2)} \cup ObjFam(2, KindAtoms)
+AllKinds == KindAtoms \cup {Arr(t) : t \in TuplesUpTo(KindAtoms, 2)} \cup ObjFam(2, KindAtoms)
          \cup {O1("k0", O1("k1", x)) : x \in KindAtoms} \cup {O1("k0", Arr(<<x>>)) : x \in KindAtoms}
 
 (* sibling containers with same-named array children, both edited (anything cached per depth / per last path element) *)
@@ -135,6 +135,25 @@ SibArrs == {Arr(t) : t \in TuplesUpTo({N1, N2}, 2)} \ {EmptyArr}
 Siblings == {O2("k0", O1("k2", x), "k1", O1("k2", y)) : x \in SibArrs, y \in SibArrs}
             \cup {Arr(<<O2("id", N1, "k2", x), O2("id", N2, "k2", y)>>) : x \in SibArrs, y \in SibArrs}
             \cup {Arr(<<Arr(<<x>>), Arr(<<y>>)>>) : x \in {Arr(<<N1, N2>>), Arr(<<N2, N1>>), Arr(<<N1>>)}, y \in {Arr(<<N1, N2>>), Arr(<<N2, N1>>), Arr(<<N2>>)}}
+
+(* sizes beyond every small threshold: arrays of 17 and 33 elements (with repeats) changed in one place, at the root, under a *)
+(* key and as a member of an array; objects with 20 members changed in one place                                            *)
+LongBase(L) == [i \in 1..L |-> Num(8 * (1 + (i % 5)))]
+LongVariants(L) ==
+  LET t == LongBase(L)  mid == (L + 1) \div 2 IN
+  {t, Append(t, N9), <<N9>> \o t, SeqReplace(t, 1, N9), SeqReplace(t, mid, N9), SeqReplace(t, L, N9),
+   SeqRemoveAt(t, 1), SeqRemoveAt(t, mid), SeqRemoveAt(t, L), SubSeq(t, 1, mid) \o <<N9>> \o SubSeq(t, mid + 1, L), Reverse(t),
+   SubSeq(t, 1, L - 3)}
+LongSeqs == LongVariants(17) \cup LongVariants(33)
+LongRoot == {Arr(t) : t \in LongSeqs}
+LongKey  == {O2("k0", Arr(t), "k1", N1) : t \in LongSeqs}
+LongElem == {Arr(<<N1, Arr(t), N2>>) : t \in LongSeqs}
+WideKeys == {"c" \o ToString(i) : i \in 0..19}
+WideBase == [j \in WideKeys |-> N1]
+Wide == {Obj(WideBase), Obj(FnWith(WideBase, "c7", N2)), Obj(FnWith(WideBase, "c0", N2)), Obj(FnWithout(WideBase, "c19")),
+         Obj(FnWith(WideBase, "kz", N2)), Obj(FnWith(FnWith(WideBase, "c3", N2), "c12", S0)), Obj(FnWithout(FnWithout(WideBase, "c1"), "c2")),
+         Obj(FnWith(WideBase, "c5", Arr(<<N1, N2>>))), O1("k0", Obj(WideBase)), O1("k0", Obj(FnWith(WideBase, "c7", N2))),
+         Arr(<<Obj(WideBase)>>), Arr(<<Obj(FnWith(WideBase, "c9", N2))>>)}
 
 (* type-confusable values for the equality oracle (C04) *)
 Confusable ==
